@@ -583,3 +583,58 @@ def check_commitment_not_skipped(ctx, fb, prog, rule="R03.3"):
              "on all %d paths that hand a commitment environment to the session, the session's done flag is cleared" % handed,
              "setup_environment hands the commitment check to a session that may already be `done` (an empty tapscript has pc == pend at construction): "
              "the non-interactive run and `step` then never perform the commitment check - a script that does not match the program is executed as if it did")
+
+
+def commitment_prologue(fb, prog):
+    """{state name: [Outcome]} of the debugger's stepper when the session holds a commitment environment and its Iterate()
+    returns that state (G-SYM; the dispatch may be a switch or an if-chain, the result may be held in a local)"""
+    key = ("prologue", fb.tree_hash)
+    if key in _memo:
+        return _memo[key]
+    st = fb.fn("StepScript", file="debugger/interpreter.cpp")
+    en = [x for x in fb.enums if x["name"].endswith("TaprootCommitmentEnv::State") or x["name"] == "State"]
+    if not en:
+        raise AnalysisBroken("set-up rules: enum TaprootCommitmentEnv::State not found")
+    res = {}
+    for c in en[0]["consts"]:
+        k = c.get("v", c.get("value"))
+
+        def assume(term, conds, k=k):
+            def is_tce(x):
+                return isinstance(x, tuple) and x[0] == "f" and x[2] == "tce"
+            if is_tce(term):
+                return True
+            if isinstance(term, tuple) and term[0] == "eq":
+                if any(is_tce(x) for x in term[1:]) and (symx.NULL in term[1:] or C(0) in term[1:]):
+                    return False
+                for a, b in ((term[1], term[2]), (term[2], term[1])):
+                    if symx.is_const(b) and isinstance(a, tuple) and a[:2] == ("ap", "m:Iterate"):
+                        return b[1] == k
+            if isinstance(term, tuple) and term[:2] == ("ap", "m:Iterate"):
+                return k != 0
+            return None
+        X = symx.Explorer(prog, assume=assume, inline=lambda fn, n: False, transparent=lambda n: True)
+        try:
+            outs = X.explore(st, params={st.params[0]["n"]: ("a", "env")}, limit=5000)
+        except symx.Unsupported as e:
+            raise AnalysisBroken("set-up rules: stepper prologue: %s" % e)
+        # paths that did call Iterate()
+        outs = [o for o in outs if any(e.kind == "mcall" and e.name == "Iterate" for e in o.events)]
+        if not outs:
+            raise AnalysisBroken("set-up rules: the stepper does not call Iterate() on the commitment environment")
+        res[c.get("n", c.get("name"))] = outs
+    _memo[key] = (st, res)
+    return _memo[key]
+
+
+def advance_of(o, counter="curr_op_seq"):
+    """how much the position counter moved on the path (None if not by a constant)"""
+    vals = [val for (k, val) in o.heap.items() if k[1] == counter]
+    if not vals:
+        return 0
+    c0, parts = symx.lin_parts(vals[-1])
+    if len(parts) == 1:
+        (t, k), = parts.items()
+        if k == 1 and isinstance(t, tuple) and t[0] == "f" and t[2] == counter:
+            return c0
+    return None
